@@ -211,6 +211,54 @@ def _vec_b(case):
         pyr.reset_pyrates()
 
 
+def _fl(v):
+    """a float result as JSON: exact hex for finite values, 'nan' / 'inf' / '-inf' otherwise"""
+    import numpy as np
+    v = float(np.asarray(v, dtype=np.float64).reshape(-1)[0])
+    return "nan" if v != v else ("inf" if v == float("inf") else "-inf" if v == float("-inf") else v.hex())
+
+
+def _extreme_a(case):
+    """a backend function at extreme arguments, direct evaluation of the parsed equation"""
+    import numpy as np
+    from pyrates.backend.parser import parse_equations
+    from pyrates.backend.computegraph import ComputeGraph
+    dt = np.float32 if case["prec"] == "float32" else np.float64
+    out = []
+    for v in case["args"]:
+        cg = ComputeGraph(backend='default')
+        args = {'n/op/x': {'vtype': 'state_var', 'value': dt(0.5), 'shape': (), 'dtype': case["prec"]},
+                'n/op/r': {'vtype': 'constant', 'value': dt(float(v)), 'shape': (), 'dtype': case["prec"]}}
+        parse_equations(equations=[(f"x' = {case['f']}(r)", 'n/op')], equation_args=args, cg=cg, def_shape=())
+        with np.errstate(all='ignore'):
+            out.append(_fl(cg.eval_node(cg.var_updates['DEs']['x'])))
+    return out
+
+
+def _extreme_b(case):
+    """... and the generated function, compiled once per function and precision"""
+    import numpy as np
+    from pyrates import OperatorTemplate, NodeTemplate, CircuitTemplate
+    import pyr
+    pyr.reset_pyrates()
+    try:
+        dt = np.float32 if case["prec"] == "float32" else np.float64
+        op = OperatorTemplate(name='op', equations=[f"x' = {case['f']}(r)"], variables={'x': 'output(0.5)', 'r': 1.0})
+        c = CircuitTemplate(name='c', nodes={'A': NodeTemplate(name='nA', operators=[op])})
+        func, args, names, smap = c.get_run_func('f', step_size=1e-3, file_name='m1', backend='default', solver='euler',
+                                                 float_precision=case["prec"], vectorize=False, clear=False, in_place=False, verbose=False)
+        j = list(names).index('A/op/r')
+        assert np.asarray(args[j]).dtype == dt and np.asarray(args[1]).dtype == dt, (np.asarray(args[j]).dtype, np.asarray(args[1]).dtype)
+        out = []
+        for v in case["args"]:
+            a2 = list(args); a2[j] = np.asarray(float(v), dtype=dt); a2[2] = np.zeros_like(args[2])
+            with np.errstate(all='ignore'):
+                out.append(_fl(np.array(func(*a2)).reshape(-1)[0]))
+        return out
+    finally:
+        pyr.reset_pyrates()
+
+
 def _const_eqs(it):
     s, form = it["s"], it["form"]
     if form == "alg":
@@ -308,6 +356,8 @@ def impl(case):
                 return [p.lhs, p.lhs_key, bool(p._diff_eq), p.rhs, p._assign_type]
             outs.append(_guard(one))
         return outs
+    if kind == "extreme":
+        return {"a": _guard(_extreme_a, case), "b": _guard(_extreme_b, case)}
     if kind == "const":
         return [{"a": _guard(_const_a, it), "b": _guard(_const_b, it)} for it in case["items"]]
     if kind == "names":
@@ -718,6 +768,56 @@ def gen_const_case(rng):
     return dict(kind="const", items=items)
 
 
+EXTREME_ARGS = ["1e-30", "1e-8", "1", "30", "88", "89", "100", "700", "710", "1e4", "1e30"]
+EXTREME_FUNCS = ["sigmoid", "tanh", "exp", "log", "sqrt", "absv", "sin", "cos", "sinh", "cosh"]
+BOUNDED = {"sigmoid", "tanh", "sin", "cos"}
+
+
+def gen_extreme_cases():
+    """every transcendental / saturating backend function at +-{1e-30 .. 1e30}, float32 and float64 (deterministic)"""
+    cases = []
+    for f in EXTREME_FUNCS:
+        for prec in ("float32", "float64"):
+            args = EXTREME_ARGS + ([] if f in ("log", "sqrt") else ["-" + a for a in EXTREME_ARGS])
+            cases.append(dict(kind="extreme", f=f, prec=prec, args=args))
+    return cases
+
+
+def compare_extreme(cases, outs):
+    """-> (broken, off): broken = non-finite value where the reference is finite and representable, a wrong infinity, or an
+    exception (exact facts: they decide); off = finite values outside the tolerance (notes only)"""
+    import mpmath, numpy as np
+    mpmath.mp.dps = 60
+    ref = dict(sigmoid=lambda x: 1 / (1 + mpmath.exp(-x)), tanh=mpmath.tanh, exp=mpmath.exp, log=mpmath.log, sqrt=mpmath.sqrt,
+               absv=abs, sin=mpmath.sin, cos=mpmath.cos, sinh=mpmath.sinh, cosh=mpmath.cosh)
+    broken, off = [], []
+    for i, (c, o) in enumerate(zip(cases, outs)):
+        dt = np.float32 if c["prec"] == "float32" else np.float64
+        fi = np.finfo(dt)
+        rtol = 4e-6 if dt is np.float32 else 1e-12
+        bad = None
+        for path in ("a", "b"):
+            if isinstance(o, dict) and isinstance(o.get(path), list):
+                for v, got in zip(c["args"], o[path]):
+                    x = float(dt(float(v)))                       # the argument the code actually sees
+                    r = ref[c["f"]](mpmath.mpf(x))
+                    rep = abs(r) <= mpmath.mpf(float(fi.max))
+                    if got in ("nan", "inf", "-inf"):
+                        if got == "nan" or rep or c["f"] in BOUNDED or (got == "inf") != (r > 0):
+                            bad = bad or f"{c['f']}({v}) [{c['prec']}, path {path}] = {got}, reference {mpmath.nstr(r, 8)}"
+                    elif not rep:
+                        bad = bad or f"{c['f']}({v}) [{c['prec']}, path {path}] = {float.fromhex(got)}, reference overflows"
+                    else:
+                        g = float.fromhex(got)
+                        if abs(mpmath.mpf(g) - r) > rtol * abs(r) + float(fi.tiny):
+                            off.append(f"{c['f']}({v}) [{c['prec']}, {path}] = {g} vs {mpmath.nstr(r, 12)}")
+            else:
+                bad = bad or f"{c['f']} [{c['prec']}, path {path}]: {str(o.get(path) if isinstance(o, dict) else o)[:160]}"
+        if bad:
+            broken.append((i, bad))
+    return broken, off
+
+
 def gen_support_case(rng):
     names = rng.sample(["r", "rr", "k", "weight", "x_v1", "tau"], 3)
     a, b, c = names
@@ -1069,7 +1169,7 @@ def check(ctx):
         cases = (load_corpus("C05") + [gen_expr_case(ctx.rng) for _ in range(n_expr)] + [gen_lhs_case(ctx.rng) for _ in range(n_lhs)]
                  + [gen_surg_case(ctx.rng) for _ in range(n_surg)] + [gen_call_case(ctx.rng) for _ in range(n_call)]
                  + [gen_support_case(ctx.rng) for _ in range(n_sup)] + [gen_vec_case(ctx.rng, k) for k in range(n_vec)]
-                 + [gen_names_case(ctx.rng) for _ in range(n_nm)] + [gen_const_case(ctx.rng) for _ in range(n_const)])
+                 + [gen_names_case(ctx.rng) for _ in range(n_nm)] + [gen_const_case(ctx.rng) for _ in range(n_const)] + gen_extreme_cases())
     outs = run_impl(ctx, "c05", "impl", cases, per_case_timeout=120)
     K = lambda k: [i for i, c in enumerate(cases) if c["kind"] == k]
     bad_spec, bad_impl, crashed, guard_viol = [], [], [], {}
@@ -1144,6 +1244,14 @@ def check(ctx):
             bad_spec.append(iv[j]); bad_impl.append(iv[j])
         ctx.note(f"vec: {len(iv)} equations with index/index_range/index_axis/index_2d on vectors and matrices "
                  f"({sum(max(cases[i]['n'], 1) for i in iv)} components x 2 paths); disagreements {len(b)}")
+    # --- backend functions at extreme arguments (support stream; non-finite where a finite value exists is exact and decides)
+    ix = [i for i in K("extreme") if i not in crashed]
+    if ix:
+        broken, offx = compare_extreme([cases[i] for i in ix], [outs[i] for i in ix])
+        for j, why in broken:
+            crashed.append(ix[j]); ctx.note(f"extreme: {why}")
+        ctx.note(f"extreme: {len(ix)} function x precision models, {sum(len(cases[i]['args']) for i in ix)} arguments x 2 paths; "
+                 f"non-finite or wrong infinity: {len(broken)}; outside the tolerance (not deciding): {len(offx)}" + (f": {offx[:3]}" if offx else ""))
     # --- right-hand sides that are pure numbers
     ico = [i for i in K("const") if i not in crashed]
     if ico:
